@@ -104,6 +104,68 @@ func unfoldable(c *ssa.Call) *ssa.Function {
 
 func renderValue(v ssa.Value, d int) string { return renderValue1(v, d) }
 
+// unfoldResult: result k of a call of a small first-party function (no loops, at most four returns,
+// no effects of its own beyond calls) all of whose returns give a constant for that result except
+// one: the call's result k is rendered as that one value — `fileSize(f)#0` is `f.Stat()#0.Size()`,
+// `fileSize(f)#1` is `f.Stat()#1` — so that the (value, error) wrapper and its body written out at the
+// call site render alike.
+func unfoldResult(c *ssa.Call, k int) (*ssa.Function, ssa.Value) {
+	cal := c.Call.StaticCallee()
+	if cal == nil || len(cal.Blocks) == 0 || len(cal.Blocks) > 6 || len(cal.FreeVars) > 0 || cal.Pkg == nil || c.Call.IsInvoke() {
+		return nil, nil
+	}
+	if !strings.HasPrefix(cal.Pkg.Pkg.Path(), "github.com/google/osv-scalibr") || cal.Signature.Variadic() || len(cal.Params) != len(c.Call.Args) {
+		return nil, nil
+	}
+	for _, fr := range renderEnv {
+		if fr.fn == cal {
+			return nil, nil
+		}
+	}
+	if len(renderEnv) >= 3 || k >= cal.Signature.Results().Len() {
+		return nil, nil
+	}
+	var only ssa.Value
+	nret := 0
+	for _, b := range cal.Blocks {
+		for _, pr := range b.Preds {
+			if b.Dominates(pr) {
+				return nil, nil // loop
+			}
+		}
+		for _, in := range b.Instrs {
+			switch x := in.(type) {
+			case *ssa.Store:
+				if _, isParam := x.Val.(*ssa.Parameter); !isParam {
+					return nil, nil
+				}
+			case *ssa.MapUpdate, *ssa.Send, *ssa.Go, *ssa.Defer, *ssa.Panic, *ssa.RunDefers:
+				return nil, nil
+			case *ssa.Return:
+				nret++
+				if k >= len(x.Results) {
+					return nil, nil
+				}
+				v := x.Results[k]
+				if _, isC := v.(*ssa.Const); isC {
+					continue
+				}
+				if only != nil && only != v {
+					return nil, nil
+				}
+				only = v
+			}
+		}
+	}
+	if nret > 4 || only == nil {
+		return nil, nil
+	}
+	if _, isPhi := only.(*ssa.Phi); isPhi {
+		return nil, nil
+	}
+	return cal, only
+}
+
 // oneGroup: s is a single ‹…› group (so wrapping it again would add nothing).
 func oneGroup(s string) bool {
 	if !strings.HasPrefix(s, "‹") || !strings.HasSuffix(s, "›") {
@@ -184,6 +246,14 @@ func renderValue1(v ssa.Value, d int) string {
 	case *ssa.Lookup:
 		return renderValue(x.X, d+1) + "[" + renderValue(x.Index, d+1) + "]"
 	case *ssa.Extract:
+		if c, ok := x.Tuple.(*ssa.Call); ok {
+			if cal, v := unfoldResult(c, x.Index); v != nil {
+				renderEnv = append(renderEnv, renderFrame{cal, c.Call.Args})
+				out := renderValue1(v, d)
+				renderEnv = renderEnv[:len(renderEnv)-1]
+				return out
+			}
+		}
 		return renderValue(x.Tuple, d+1) + fmt.Sprintf("#%d", x.Index)
 	case *ssa.Call:
 		if cal := unfoldable(x); cal != nil {
@@ -199,9 +269,26 @@ func renderValue1(v ssa.Value, d int) string {
 			as = append(as, renderValue(x.Call.Value, d+1))
 		}
 		for _, a := range flattenVariadic(x.Call.Args) {
+			// a value of an empty struct type carries nothing (the usual `type Extractor struct{}`
+			// receiver): a method on it and a plain function render alike
+			if st, isStruct := a.Type().Underlying().(*types.Struct); isStruct && st.NumFields() == 0 {
+				continue
+			}
 			as = append(as, renderValue(a, d+1))
 		}
-		return rf.String() + "(" + strings.Join(as, ",") + ")"
+		name := rf.String()
+		if x.Call.IsInvoke() && strings.HasPrefix(rf.Pkg, "github.com/google/osv-scalibr") && rf.Recv != "" {
+			// a first-party interface method: the same name as the static call of an implementation
+			rf.Recv = ""
+			name = rf.String()
+		}
+		if cal := x.Call.StaticCallee(); cal != nil && cal.Pkg != nil && strings.HasPrefix(cal.Pkg.Pkg.Path(), "github.com/google/osv-scalibr") && rf.Recv != "" {
+			// first-party static callee: package and name (a method and the plain function it may
+			// become, or the reverse, are the same callee; the receiver is the first argument)
+			rf.Recv = ""
+			name = rf.String()
+		}
+		return name + "(" + strings.Join(as, ",") + ")"
 	case *ssa.Phi:
 		return "φ:" + typeShort(x.Type())
 	case *ssa.BinOp:
@@ -587,6 +674,8 @@ func isPackageAppend(in ssa.Instruction) bool {
 		if n := namedOf(x.Value.Type()); n != nil && n.Obj().Name() == "Package" {
 			return true
 		}
+	case *ssa.Store:
+		return isAppendOf("Package")(in)
 	}
 	return false
 }
@@ -603,11 +692,11 @@ var c03Predicates = map[string]string{
 // c03GoSumDecisions: the decisions after which gomod.Extract no longer reads go.sum.
 var c03GoSumDecisions = []string{
 	// no go directive: treated like a recent go version (indirect requirements are listed in go.mod)
-	"\"\":github.com/google/osv-scalibr/extractor/filesystem/language/golang/gomod.goVersion == extractor/filesystem/language/golang/gomod.Extractor.extractGoMod(param0,param2)#1",
+	"\"\":github.com/google/osv-scalibr/extractor/filesystem/language/golang/gomod.goVersion == extractor/filesystem/language/golang/gomod.extractGoMod(param2)#1",
 	// go >= 1.17 lists indirect requirements in go.mod itself
-	"0:int <= go/version.Compare((\"go\":github.com/google/osv-scalibr/extractor/filesystem/language/golang/gomod.goVersion+extractor/filesystem/language/golang/gomod.Extractor.extractGoMod(param0,param2)#1),\"go1.17\":string)",
+	"0:int <= go/version.Compare((\"go\":github.com/google/osv-scalibr/extractor/filesystem/language/golang/gomod.goVersion+extractor/filesystem/language/golang/gomod.extractGoMod(param2)#1),\"go1.17\":string)",
 	// go.mod itself could not be parsed
-	"extractor/filesystem/language/golang/gomod.Extractor.extractGoMod(param0,param2)#2 != nil:error",
+	"extractor/filesystem/language/golang/gomod.extractGoMod(param2)#2 != nil:error",
 }
 
 func runC03(p *Prog, r *Report) {
@@ -860,6 +949,9 @@ func c03Omissions(p *Prog, r *Report, rule string, fns []*ssa.Function) {
 	for _, fn := range fns {
 		sk := loopSkips(fn, isPackageAppend)
 		key := fnKey(fn)
+		if !learn {
+			key = tableKey(c03Sanctioned, fn)
+		}
 		want := c03Sanctioned[key]
 		if learn {
 			for _, s := range sk {
